@@ -65,7 +65,7 @@ TECHNIQUE = ("Coq proof about the executable model of Validator::validate and of
              "carries the coherence of group entries -- a predicate not closed under entry removal -- outside the two "
              "recorded finding families, given as boolean families of definitions, "
              "+ extracted-model/implementation correspondence + direct python oracle on every successful parse")
-LEVEL_TEXT = ("84 pinned machine-checked theorems (Coq 8.16, all closed under the global context, no standard-library axiom).  "
+LEVEL_TEXT = ("86 pinned machine-checked theorems (Coq 8.16, all closed under the global context, no standard-library axiom).  "
               "C03_parse_sound_tree / C03_parse_top_sound_tree: for every valid definition of the class plain (no short "
               "flag-subcommands) + no_ignore (no node sets ignore_errors; the class is proved to be inherited by every "
               "command the parser builds) and every argv, a successful parse reports -- up to the copy of global "
@@ -87,7 +87,7 @@ LEVEL_TEXT = ("84 pinned machine-checked theorems (Coq 8.16, all closed under th
               "Round 3: C03_validate_iff -- for EVERY relation graph (requires/requires_if chains, required groups, group "
               "requires, all conditional rule families) and every well-formed matcher validate = Ok <-> Relations, the two "
               "non-relation checks (help-on-empty-argv, subcommand-required) set aside (C03_validate_complete, "
-              "C03_missing_required_complete, C03_no_false_missing; C03_validate_iff_invariant discharges the side conditions "
+              "C03_missing_required_complete, C03_no_false_missing, C03_validate_iff_members for RelationsM on coherent matchers; C03_validate_iff_invariant discharges the side conditions "
               "on every state of the parser).  C03_parse_sound_members / C03_level_members / C03_level_coherent: outside the "
               "two finding families (boolean group_safe on the built definition) every successful level ends with coherent "
               "group entries (entry explicit <-> a member explicit) and satisfies RelationsM, the member-based reading of the "
